@@ -455,6 +455,12 @@ def check_history(case, rec):
                         dict(otags, kind="rejected_value_sticks"),
                     )
                     return  # known finding: state is polluted, stop this history
+            if _opt_outside_documented_domain(r):
+                # an optional argument now sits outside the documented bounds of the class (possible after the user widened them,
+                # e.g. len_low = inf): no documented semantics beyond this point
+                rec.exclude("opt_arg_outside_documented_domain")
+                rec.nontrivial(_nontrivial({"ops": case["ops"][: i + 1]}))
+                return
             _compare(m, r, otags, rec, where)
             if op["op"] == "bounds" and not op["check_args"] and r._check() is not None:
                 # the user explicitly skipped the check and left a value outside
